@@ -98,7 +98,7 @@ func (n *RangeLiteralNode) String() string {
 	var buff strings.Builder
 
 	if n.Start != nil {
-		leftParen := ExpressionPrecedence(n) > ExpressionPrecedence(n.Start)
+		leftParen := rangeLiteralPrecedence >= ExpressionPrecedence(n.Start)
 		if leftParen {
 			buff.WriteRune('(')
 		}
@@ -111,7 +111,11 @@ func (n *RangeLiteralNode) String() string {
 	buff.WriteString(n.Op.String())
 
 	if n.End != nil {
-		rightParen := ExpressionPrecedence(n) >= ExpressionPrecedence(n.End)
+		rightParen := rangeLiteralPrecedence >= ExpressionPrecedence(n.End)
+		if n.Start == nil {
+			// the bound of a beginless range is parsed as a constructor call
+			rightParen = ExpressionPrecedence(n.End) < ExpressionPrecedence((*ConstructorCallNode)(nil))
+		}
 		if rightParen {
 			buff.WriteRune('(')
 		}
